@@ -6,6 +6,9 @@ ORACLES = {
     'UserMiddleware': {'returns': 'any', 'raises': ()},
     'UserErrorHandler': {'returns': 'pjrpc.common.exceptions:JsonRpcError', 'raises': (),
                          'returned_invariant': 'spec.user:error_ok'},
+    # the (undecorated) send below the tracing / retrying wrappers: returns a response / None or raises anything,
+    # including non-Exception BaseExceptions such as cancellation
+    'UserTransport': {'returns': 'any', 'raises': ('Exception', 'UserBaseException')},
     'UserJitter': {'returns': 'number', 'raises': ()},
     'UserCallback': {'returns': 'any', 'raises': ('Exception',)},
     'UserExcludeFn': {'returns': 'any', 'raises': ()},
@@ -17,4 +20,14 @@ FIELD_TYPES = {
     ('pjrpc.server.dispatcher:MethodRegistry', '_registry'): 'dict[pjrpc.server.dispatcher:Method]',
     ('pjrpc.server.dispatcher:BaseDispatcher', '_registry'): '=pjrpc.server.dispatcher:MethodRegistry',
     ('pjrpc.server.dispatcher:BaseDispatcher', '_error_handlers'): 'dict[list[=UserErrorHandler]]',
+    ('pjrpc.client.client:BaseAbstractClient', '_tracers'): 'list[=UserTracer]',
+}
+
+# methods of abstract user objects (C19: tracers do not raise)
+ORACLE_METHODS = {
+    'UserTracer': {
+        'on_request_begin': {'returns': 'none', 'raises': ()},
+        'on_request_end': {'returns': 'none', 'raises': ()},
+        'on_error': {'returns': 'none', 'raises': ()},
+    },
 }
